@@ -20,7 +20,7 @@ PROG_CLASSES = [
 ]
 
 
-def plan_programs(tier, seed, scale=1.0, per_quick=50, per_thorough=500, real=True):
+def plan_programs(tier, seed, scale=1.0, per_quick=50, per_thorough=500, real=True, faults=True):
     quick = tier == "quick"
     shards = []
     for cls, q, t in PROG_CLASSES:
@@ -29,6 +29,15 @@ def plan_programs(tier, seed, scale=1.0, per_quick=50, per_thorough=500, real=Tr
         for start in range(0, total, per):
             shards.append({"kind": "programs", "cls": cls, "seed": seed, "start": start,
                            "count": min(per, total - start), "tier": tier})
+    if faults:
+        # fault histories (M-fault): every case is preceded, in the same
+        # process, by runs of the same case aborted by an injected exception
+        for cls, q, t in PROG_CLASSES:
+            total = max(1, int((q if quick else t) * scale * 0.1))
+            per = 25 if quick else 250
+            for start in range(0, total, per):
+                shards.append({"kind": "programs", "cls": cls, "seed": seed, "start": 500000 + start,
+                               "count": min(per, total - start), "tier": tier, "faults": 2})
     if real:
         nsh = 16
         for s in range(nsh):
@@ -114,6 +123,38 @@ def differential(ctx, makers, cls, tier, merge_name_errors=False, src=None):
 
 
 def iter_cases(spec):
+    nf = spec.get("faults")
+    for case in _iter_cases(spec):
+        if nf:
+            case["faults"] = nf
+        yield case
+
+
+def run_with_faults(prop, run_case, case, acc, *args):
+    """run_case(case, acc, *args), preceded - when the case asks for it - by
+    runs of the same case on throw-away accounting that are aborted by an
+    injected exception at a random library call (M-fault)."""
+    nf = case.get("faults")
+    if nf:
+        import random
+
+        from ..monitors import fault
+        from .base import ShardAcc
+
+        scratch = ShardAcc(prop)
+        c0 = {k: v for k, v in case.items() if k != "faults"}
+        fctx = core.Ctx(None)
+        rng = random.Random(core.sha([c0.get("src"), "fault"]))
+        sites = fault.inject_around(fctx, rng, lambda: run_case(c0, scratch, *args), nf,
+                                    cold_key=(prop, c0.get("cls")))
+        acc.counters.update(fctx.counters)
+        acc.counters["cases_run_after_injected_faults"] += 1
+        for s in sites:
+            acc.hist("fault_site", s.split(":")[0])
+    return run_case(case, acc, *args)
+
+
+def _iter_cases(spec):
     k = spec["kind"]
     if k == "programs":
         for i in range(spec["start"], spec["start"] + spec["count"]):
